@@ -775,3 +775,11 @@ class DispatchTwice(_Val):
 
 
 CONTRACTS = CONTRACTS + [DispatchTwice()]
+
+
+def extra_contracts():
+    """"each supplied or defaulted value conforms": the Missing alternative recognises the missing value by identity, so every
+    way of obtaining it - the constant, `Missing()` - must give the one object: C20's contract of the metaclass call."""
+    from .C02 import variant
+    from .C20 import MetaCall
+    return [variant(MetaCall, "C05", ("",))]
